@@ -41,6 +41,7 @@ class TraceRun:
         self.calls = {}
         self.region_vars = {}
         self.type_leak = False
+        self.nonbool_guard = False
         self.outcome = None        # "completed" | "raised:<cls>"
         self.outcome_msg = ""
         self.steps = 0
@@ -67,6 +68,8 @@ class TraceRun:
     def cb_cv(self, c):
         lc = self.w.lc_of(c)
         v = lc.value if lc is not None else int(c)
+        if v != 0 and v != 1:
+            self.nonbool_guard = True
         return 1 if v == 1 else (0 if v == 0 else v)
 
     def cb_set_ie(self, v):
@@ -230,6 +233,10 @@ class TraceRun:
         rec = w.rec
         rt = w.runtime
         flags = self.ctx_flags(model)
+        if any(x not in (0, 1) for m in model for x in m):
+            # a "condition" that is not 0/1 (only constructible with error checking switched off): outside the
+            # guard values the properties quantify over
+            self.nonbool_guard = True
         self.state_sigs.add((info.get("kind"), flags["depth"], tuple(tuple(m) for m in model),
                              flags["nocheck"], (self.cur_desc or {}).get("op")))
         if not model and rt.guard is not None:
